@@ -31,6 +31,7 @@ func init() {
 			ruleCheckThenActAtomic(r, "T13", "/transport/reconnect", "/internal/retry")
 			ruleNoChanBlockUnderCloseLocks(r, le, "T14")
 			ruleCloseNotBehindIO(r, le, "T15")
+			ruleAtomicReadModifyWrite(r, "T16", "/transport", "/wire", "/iscp", "/internal")
 		},
 	})
 }
@@ -361,15 +362,20 @@ func ruleC18T5(r *Run) {
 	}
 	name := fnName(rl)
 	var isPing *ssa.Call
-	allInstrs(rl, func(ins ssa.Instruction) {
-		if c, ok := ins.(*ssa.Call); ok && isCallNamed(c, rcPkg+".IsPing") {
-			isPing = c
-		}
+	// the loop itself, or the method one round of it was moved to (readOnce): the rule is about that body — a return
+	// from it ends the round, which is "before the next read"
+	p.withHelpers(rl, 1, func(g *ssa.Function) {
+		allInstrs(g, func(ins ssa.Instruction) {
+			if c, ok := ins.(*ssa.Call); ok && isCallNamed(c, rcPkg+".IsPing") && isPing == nil {
+				isPing = c
+			}
+		})
 	})
 	if isPing == nil {
 		r.Check(name+" recognises ping", false, p.pos(rl.Pos()), name, "the read loop does not test for the control ping")
 		return
 	}
+	rl = isPing.Parent()
 	var ifs *ssa.If
 	if isPing.Referrers() != nil {
 		for _, ref := range *isPing.Referrers() {
@@ -384,6 +390,19 @@ func ruleC18T5(r *Run) {
 	}
 	pingSucc := ifs.Block().Succs[0]
 	isSendTo := func(ins ssa.Instruction, field string) bool {
+		// a plain send, or a send case of a select, on the channel field
+		switch x := ins.(type) {
+		case *ssa.Send:
+			if hasLeaf(p.Leaves(x.Chan, provOpts{}), "field:"+rcPkg+".Transport."+field) {
+				return true
+			}
+		case *ssa.Select:
+			for _, st := range x.States {
+				if st.Dir == types.SendOnly && hasLeaf(p.Leaves(st.Chan, provOpts{}), "field:"+rcPkg+".Transport."+field) {
+					return true
+				}
+			}
+		}
 		cc := instrCall(ins)
 		if cc == nil {
 			return false
@@ -750,22 +769,26 @@ func ruleC18T10(r *Run) {
 				return all, io
 			}
 		}
-		ok := false
+		ok, other := false, false
 		ioName := ""
 		allInstrs(fn, func(ins ssa.Instruction) {
 			c, isCall := ins.(*ssa.Call)
 			if !isCall || !c.Call.IsInvoke() || (c.Call.Method.Name() != "Read" && c.Call.Method.Name() != "Write") {
 				return
 			}
-			if !dominatesInstr(c, site) {
+			// the failing operation comes before the call: it dominates it, or — when it sits in an inner loop over a
+			// batch — the call is reachable from it
+			if !dominatesInstr(c, site) && reachesWithout(c, func(x ssa.Instruction) bool { return x == site }, nil) == nil {
 				return
 			}
 			ioName = c.Call.Method.Name()
 			if canonVal(c.Call.Value) == arg {
 				ok = true
+			} else {
+				other = true // an operation on another connection value also leads here
 			}
 		})
-		return ok, ioName
+		return ok && !other, ioName
 	}
 	for _, site := range p.staticCallSites(rc) {
 		fn := site.Parent()
